@@ -325,6 +325,60 @@ def run(ctx):
 
     if ctx.replay is None or "fault" in (ctx.replay or {}):
         fault_section(ctx, mc, uv, clear)
+    if ctx.replay is None or "threads" in (ctx.replay or {}):
+        reentrancy_section(ctx, mc)
+
+
+def reentrancy_section(ctx, mc):
+    """RE-ENTRANCY: the maps are exact for every SCHEDULE - several threads of one process compress / re-inflate matrices
+    of the same size at the same time (a thread pool of solvers, a server handling two requests), each on its own data;
+    every result must be the exact map of its caller's argument.  Thread switches are made frequent for the duration."""
+    import sys
+    import threading
+    plans = [ctx.replay["threads"]] if ctx.replay is not None else ([(60, 4, 120), (6, 4, 400)] if ctx.quick() else
+                                                                   [(60, 4, 400), (6, 4, 2000), (25, 8, 400), (120, 3, 100)])
+    old_iv = sys.getswitchinterval()
+    sys.setswitchinterval(1e-6)
+    try:
+        for (n, nthreads, iters) in plans:
+            m = n * (n + 1) // 2
+            vecs = [np.arange(m, dtype=float) * (t + 1) + 1000.0 * t for t in range(nthreads)]
+            fulls = []
+            for v in vecs:
+                M = np.zeros((n, n))
+                k = 0
+                for r in range(n):
+                    M[r, r:] = v[k:k + n - r]
+                    M[r:, r] = v[k:k + n - r]
+                    k += n - r
+                fulls.append(M)
+            bad = []
+            start = threading.Barrier(nthreads)
+
+            def work(t):
+                start.wait()
+                for _ in range(iters):
+                    got = mc.reinflate_matrix(vecs[t].copy())
+                    if not np.array_equal(got, fulls[t]):
+                        bad.append((t, "reinflate_matrix"))
+                        return
+                    back = mc.compress_matrix(fulls[t].copy())
+                    if not np.array_equal(back, vecs[t]):
+                        bad.append((t, "compress_matrix"))
+                        return
+            ths = [threading.Thread(target=work, args=(t,)) for t in range(nthreads)]
+            for th in ths:
+                th.start()
+            for th in ths:
+                th.join()
+            if bad:
+                ctx.violation("impl-violation", f"{bad[0][1]} returned another caller's matrix / a wrong result to thread {bad[0][0]} while "
+                              f"{nthreads} threads worked on {n} x {n} matrices at the same time",
+                              {"threads": [n, nthreads, iters]}, {"site": "re-entrancy"})
+            ctx.count("concurrent_thread_rounds", nthreads * iters)
+            ctx.case(("threads", n, nthreads, iters), nontrivial=True)
+    finally:
+        sys.setswitchinterval(old_iv)
 
 
 def fault_section(ctx, mc, uv, clear):
